@@ -144,7 +144,7 @@ pub fn eval_entry(e: &Entry, f: usize, s: &str) -> Outcome {
 // ---------------------------------------------------------------------------------------------
 // requests and their faults
 
-pub const FAULT_NAMES: [&str; 24] = [
+pub const FAULT_NAMES: [&str; 26] = [
     "truncate",
     "replace_char",
     "delete_char",
@@ -169,6 +169,8 @@ pub const FAULT_NAMES: [&str; 24] = [
     "term_missing",
     "malformed_atom",
     "unfinished_number",
+    "dangling_copula_prefix",
+    "deep_nesting",
 ];
 
 #[derive(Clone, Debug)]
@@ -284,7 +286,7 @@ fn gen_request(ch: &mut Choices, gp: &GenParams, fault_rate: u32, f: usize) -> R
     let a_punct = || it.punct.clone().unwrap_or_else(|| fmt.sentence.punctuation_judgement.to_string());
     let a_stamp = || it.stamp.clone().filter(|s| !s.is_empty()).unwrap_or_else(|| fmt.format_stamp(&Stamp::Present));
     // item-level and character-level faults; index 0 (truncate) is the "simplest"
-    let which = ch.weighted(&[14, 8, 6, 8, 9, 7, 5, 5, 5, 4, 4, 7, 5, 4, 3, 3, 1, 1, 3, 3, 2, 3, 6, 5]);
+    let which = ch.weighted(&[14, 8, 6, 8, 9, 7, 5, 5, 5, 4, 4, 7, 5, 4, 3, 3, 1, 1, 3, 3, 2, 3, 6, 5, 5, 3]);
     faults.push(which);
     let text = match which {
         0 => {
@@ -399,6 +401,30 @@ fn gen_request(ch: &mut Choices, gp: &GenParams, fault_rate: u32, f: usize) -> R
                 format!("{head}{pre}{filler}{tail}")
             }
         }
+        24 => {
+            // the input ends right after an atom name with the first characters of a copula
+            // (the atom scanner looks ahead for copulas)
+            let chars: Vec<char> = full.chars().collect();
+            let ends: Vec<usize> = (0..chars.len()).filter(|i| chars[*i].is_ascii_alphanumeric() && (*i + 1 == chars.len() || !chars[*i + 1].is_ascii_alphanumeric())).collect();
+            let cops = fmt.copulas();
+            let cop: Vec<char> = cops[ch.choose(cops.len() as u32) as usize].chars().collect();
+            let take = 1 + ch.choose(cop.len().max(2) as u32 - 1) as usize;
+            let prefix: String = cop[..take.min(cop.len())].iter().collect();
+            if ends.is_empty() {
+                format!("ab{prefix}")
+            } else {
+                let k = ends[ch.choose(ends.len() as u32) as usize];
+                let head: String = chars[..=k].iter().collect();
+                format!("{head}{prefix}")
+            }
+        }
+        25 => {
+            // many unclosed opening brackets in front
+            let c = &fmt.compound;
+            let open = [c.brackets_set_extension.0, c.brackets_set_intension.0, fmt.statement.brackets.0, c.brackets.0][ch.choose(4) as usize];
+            let n = [3usize, 10, 40, 90][ch.choose(4) as usize];
+            format!("{}{full}", open.repeat(n))
+        }
         _ => {
             // the input ends while a number is still being read / a number is malformed before its bracket
             let sep = fmt.sentence.truth_separator;
@@ -427,7 +453,7 @@ enum Op {
 
 #[derive(Default, Clone)]
 pub struct SessionsRunStats {
-    pub faults: [u64; 24],
+    pub faults: [u64; 26],
     pub requests: u64,
     pub requests_faulty: u64,
     pub ops: u64,
@@ -443,6 +469,8 @@ pub struct SessionsRunStats {
     pub repeats_in_batch: u64,
     pub same_len_variants: u64,
     pub cross_format_pairs: u64,
+    pub long_sessions: u64,
+    pub soak_runs: u64,
     pub skipped_panicking: u64,
     /// [mask][class of the request parsed next]: how often a session was re-targeted with these
     /// slots still filled (probe; hooked build only)
@@ -799,7 +827,11 @@ pub fn run_sessions(ch: &mut Choices, verbose: bool) -> SessionsReport {
         exotic: false,
     };
     let main_format = ch.choose(3) as usize;
-    let mixed_formats = ch.chance(1, 3);
+    // "soak" runs: one client hammering ONE stateless entry point a few hundred times with mostly
+    // faulty requests, re-asking a few valid probes all along (state that accumulates slowly)
+    let soak = ch.chance(1, 20);
+    let (n_clients, fault_rate) = if soak { (1, 80) } else { (n_clients, fault_rate) };
+    let mixed_formats = !soak && ch.chance(1, 3);
     let n_reqs = ch.range(3, 20) as usize;
     log.line(|| format!("world: {n_clients} client(s), request fault rate {fault_rate}%, interleave {interleave_num}/8, main format {}, mixed formats {mixed_formats}, {n_reqs} requests", FORMAT_NAMES[main_format]));
 
@@ -852,7 +884,21 @@ pub fn run_sessions(ch: &mut Choices, verbose: bool) -> SessionsReport {
 
     // ---- client queues ----
     let mut clients: Vec<VecDeque<Op>> = vec![];
-    for _ in 0..n_clients {
+    let mut ops_budget = 40u32;
+    if soak {
+        stats.soak_runs += 1;
+        let e = [Entry::LexFold, Entry::Lex, Entry::LexTerm, Entry::Enum, Entry::SideTruth, Entry::SideBudget][ch.weighted(&[28, 20, 14, 20, 9, 9])].clone();
+        let n = ch.range(150, 500);
+        ops_budget = n + 8;
+        let probes: Vec<usize> = (0..reqs.len()).filter(|i| reqs[*i].faults.is_empty()).collect();
+        let mut q = VecDeque::new();
+        for k in 0..n {
+            let r = if k % 16 == 0 && !probes.is_empty() { probes[ch.choose(probes.len() as u32) as usize] } else { ch.choose(reqs.len() as u32) as usize };
+            q.push_back(Op::Call { e: e.clone(), f: reqs[r].f, req: r, variant: 0 });
+        }
+        clients.push(q);
+    }
+    for _ in 0..(if soak { 0 } else { n_clients }) {
         let n_ops = ch.range(1, 6);
         let mut q = VecDeque::new();
         for _ in 0..n_ops {
@@ -863,7 +909,11 @@ pub fn run_sessions(ch: &mut Choices, verbose: bool) -> SessionsReport {
             // 0 = batch (the session), then the stateless entry points
             match ch.weighted(&[50, 10, 8, 6, 8, 4, 6, 8]) {
                 0 => {
-                    let n = ch.range(1, 8) as usize;
+                    // most sessions are short; some are long-lived (state that accumulates)
+                    let n = if ch.chance(1, 10) { ch.range(30, 150) as usize } else { ch.range(1, 8) as usize };
+                    if n >= 30 {
+                        stats.long_sessions += 1;
+                    }
                     let f_batch = if ch.chance(1, 12) { ch.choose(3) as usize } else { usize::MAX };
                     let mut ids: Vec<usize> = vec![];
                     for _ in 0..n {
@@ -881,12 +931,21 @@ pub fn run_sessions(ch: &mut Choices, verbose: bool) -> SessionsReport {
                     q.push_back(Op::Batch { f, reqs: ids, alone_first });
                 }
                 w => {
-                    let r = pick_req(ch);
+                    let mut r = pick_req(ch);
+                    let side = ch.choose(4) as usize;
+                    if w == 3 && ch.chance(3, 4) {
+                        // the stand-alone entry points are mostly fed the matching fragment
+                        let want = [8usize, 7, 9, 10][side];
+                        let cands: Vec<usize> = (0..reqs.len()).filter(|i| reqs[*i].faults.contains(&want)).collect();
+                        if !cands.is_empty() {
+                            r = cands[ch.choose(cands.len() as u32) as usize];
+                        }
+                    }
                     let f = fmt_of(ch, r);
                     let (e, variant) = match w {
                         1 => (Entry::Enum, 0),
                         2 => (Entry::Enum, 1),
-                        3 => ([Entry::SideTruth, Entry::SideBudget, Entry::SideStamp, Entry::SidePunct][ch.choose(4) as usize].clone(), 0),
+                        3 => ([Entry::SideTruth, Entry::SideBudget, Entry::SideStamp, Entry::SidePunct][side].clone(), 0),
                         4 => (Entry::Lex, 0),
                         5 => (Entry::LexTerm, if ch.chance(1, 3) { 2 } else { 0 }),
                         6 => (Entry::LexFold, 0),
@@ -919,7 +978,7 @@ pub fn run_sessions(ch: &mut Choices, verbose: bool) -> SessionsReport {
             depth: 0,
             seq: 0,
             interleave_num,
-            ops_budget: 40,
+            ops_budget,
             trace: Digest::new(),
         }),
     };
